@@ -248,10 +248,12 @@ def r3_nothing_dropped(a, tier):
         dict(name='derivedtyped', params=('Node',), kwparams={}, base='basic', is_name=False, no_memo=False),
         dict(name='strparams', params=('123', 'True'), kwparams={'k': '7'}, base=None, is_name=False, no_memo=False),
         dict(name='mixed', params=(123, 'abc'), kwparams={}, base=None, is_name=False, no_memo=False),
+        # a rule that was written with @override: the model holds only the final definition, so the printed text has nothing to override
+        dict(name='redefined', params=(), kwparams={}, base=None, is_name=True, no_memo=False, decorators=['override', 'name']),
     ]
     rp = a.p.func('tatsu.peg.base.Rule._pretty')
     for c in rule_cases:
-        rule = Stub(Q['Rule'], exp=tok, decorators=[], no_stak=False, is_tokn=False, is_memo=True, is_lrec=False, **c)
+        rule = Stub(Q['Rule'], exp=tok, **{'decorators': [], **c}, no_stak=False, is_tokn=False, is_memo=True, is_lrec=False)
         it = _interp(a)
         it.globals['param_repr'] = None
         try:
@@ -279,6 +281,8 @@ def r3_nothing_dropped(a, tier):
                 problems.append(f'base {r.base} != {c["base"]}')
             if canon(r.exp) != ('tok', 'x'):
                 problems.append(f'body {r.exp}')
+            if 'override' in r.decorators:
+                problems.append('@override printed: the text redefines a rule it never defines ("rule not yet defined" when it is compiled)')
         rep.add({'rule': c, 'printed': text, 'problems': problems or err})
         if err or problems:
             rep.fail(rp.qualname, f'rule-header:{c["name"]}', f'rule {c} is printed as `{text}`: ' + (err or '; '.join(problems)), rp.loc)
